@@ -157,7 +157,8 @@ class CHECK(core.Check):
                   "C46_clamp_in_range, C46_output_within_limits, C46_errorsum_within_limits (each evaluated action), "
                   "C46_limits_after_evaluation and C46_limits_always_partial (every history), "
                   "C46_setpoint_jump_resets_integrator, C46_small_setpoint_change_ignored, C46_unevaluated_update_keeps_shares; "
-                  "exact arithmetic: C46_error_is_wrap2 (+ range/congruence from C43), C46_never_raises.")
+                  "exact arithmetic: C46_error_is_wrap2 (+ range/congruence from C43); binary64 arithmetic: "
+                  "C46_error_within_wrap_binary64; C46_never_raises (_exact, _binary64).")
     LEVEL_NOTE = ("Trusted: Lean kernel; axioms propext, Classical.choice, Quot.sound; transcription of "
                   "controlling.py/doing.py/blending.py/navigating.py validated by the correspondence runs. The share/store "
                   "machinery is used as is (values read and written through .value).")
